@@ -10,6 +10,7 @@ import (
 
 	"github.com/resonatehq/resonate/pkg/receiver"
 	"github.com/resonatehq/resonate/pkg/promise"
+	"github.com/resonatehq/resonate/pkg/callback"
 	"github.com/resonatehq/resonate/pkg/idempotency"
 	"context"
 
@@ -146,6 +147,31 @@ func vhRecvStored(in *pb.Recv, calls int, got []byte) {
 	}
 }
 
+// vhPromiseReply / vhCallbackReply: the resource in a reply is the kernel's, field by field (absent iff the kernel
+// returned none; absent keys and times are the protobuf zero values).
+func vhPromiseReply(out *pb.Promise, p *promise.Promise) bool {
+	if p == nil {
+		return out == nil
+	}
+	if out == nil || out.Param == nil || out.Value == nil {
+		return false
+	}
+	return vx.And(out.Id == p.Id, out.Timeout == p.Timeout, vx.BytesEq(out.Param.Data, p.Param.Data), vx.MapEq(out.Param.Headers, p.Param.Headers),
+		vx.BytesEq(out.Value.Data, p.Value.Data), vx.MapEq(out.Value.Headers, p.Value.Headers), vx.MapEq(out.Tags, p.Tags),
+		vhKeyIs(p.IdempotencyKeyForCreate, out.IdempotencyKeyForCreate), vhKeyIs(p.IdempotencyKeyForComplete, out.IdempotencyKeyForComplete),
+		vx.Implies(p.CreatedOn != nil, out.CreatedOn == vx.Int64PtrVal(p.CreatedOn)), vx.Implies(p.CompletedOn != nil, out.CompletedOn == vx.Int64PtrVal(p.CompletedOn)))
+}
+
+func vhCallbackReply(out *pb.Callback, c *callback.Callback) bool {
+	if c == nil {
+		return out == nil
+	}
+	if out == nil {
+		return false
+	}
+	return vx.And(out.Id == c.Id, out.PromiseId == c.PromiseId, out.Timeout == c.Timeout, out.CreatedOn == c.CreatedOn)
+}
+
 var vhCtx = context.Background()
 
 // ---------------------------------------------------------------- promises
@@ -193,6 +219,7 @@ func VH_G_CreatePromise() {
 	}
 	if vhReply(k, out != nil, err) {
 		vx.Assert(out.Noop == (k.res.CreatePromise.Status == t_api.StatusOK), "C15:noop-flag")
+		vx.Assert(vhPromiseReply(out.Promise, k.res.CreatePromise.Promise), "C15:reply-carries-the-kernel-resource")
 	}
 }
 
@@ -216,6 +243,7 @@ func VH_G_CreatePromiseAndTask() {
 	}
 	if vhReply(k, out != nil, err) {
 		vx.Assert(out.Noop == (k.res.CreatePromiseAndTask.Status == t_api.StatusOK), "C15:noop-flag")
+		vx.Assert(vhPromiseReply(out.Promise, k.res.CreatePromiseAndTask.Promise), "C15:reply-carries-the-kernel-resource")
 	}
 }
 
@@ -229,6 +257,7 @@ func VH_G_ResolvePromise() {
 	}
 	if vhReply(k, out != nil, err) {
 		vx.Assert(out.Noop == (k.res.CompletePromise.Status == t_api.StatusOK), "C15:noop-flag")
+		vx.Assert(vhPromiseReply(out.Promise, k.res.CompletePromise.Promise), "C15:reply-carries-the-kernel-resource")
 	}
 }
 
@@ -242,6 +271,7 @@ func VH_G_RejectPromise() {
 	}
 	if vhReply(k, out != nil, err) {
 		vx.Assert(out.Noop == (k.res.CompletePromise.Status == t_api.StatusOK), "C15:noop-flag")
+		vx.Assert(vhPromiseReply(out.Promise, k.res.CompletePromise.Promise), "C15:reply-carries-the-kernel-resource")
 	}
 }
 
@@ -255,6 +285,7 @@ func VH_G_CancelPromise() {
 	}
 	if vhReply(k, out != nil, err) {
 		vx.Assert(out.Noop == (k.res.CompletePromise.Status == t_api.StatusOK), "C15:noop-flag")
+		vx.Assert(vhPromiseReply(out.Promise, k.res.CompletePromise.Promise), "C15:reply-carries-the-kernel-resource")
 	}
 }
 
@@ -305,6 +336,7 @@ func VH_G_CreateCallback() {
 	}
 	if vhReply(k, out != nil, err) {
 		vx.Assert(out.Noop == (k.res.CreateCallback.Status == t_api.StatusOK), "C15:noop-flag")
+		vx.Assert(vx.And(vhPromiseReply(out.Promise, k.res.CreateCallback.Promise), vhCallbackReply(out.Callback, k.res.CreateCallback.Callback)), "C15:reply-carries-the-kernel-resource")
 	}
 }
 
@@ -324,6 +356,7 @@ func VH_G_CreateSubscription() {
 	}
 	if vhReply(k, out != nil, err) {
 		vx.Assert(out.Noop == (k.res.CreateSubscription.Status == t_api.StatusOK), "C15:noop-flag")
+		vx.Assert(vx.And(vhPromiseReply(out.Promise, k.res.CreateSubscription.Promise), vhCallbackReply(out.Callback, k.res.CreateSubscription.Callback)), "C15:reply-carries-the-kernel-resource")
 	}
 }
 
